@@ -50,6 +50,9 @@ type peer struct {
 	feedCh  chan []byte
 	in      chan elem
 	pw      *io.PipeWriter
+	dataErr   bool   // answer data IQs with an error
+	closeMode string // how the peer answers <close/>: "" result, "err" error, "silent" not at all
+	openSilent bool // the peer does not answer <open/> at all
 	openOK  bool   // answer of the peer to an <open/> request
 	packets []pkt  // data stanzas tapped from the session
 	replies map[string]string
@@ -180,19 +183,30 @@ func (p *peer) handle(e elem) {
 		}
 		p.replies["msgerr"] = r
 	case name == "iq" && c.XMLName.Local == "open":
-		if p.openOK {
+		if p.openSilent {
+		} else if p.openOK {
 			p.feed(fmt.Sprintf(`<iq xmlns="jabber:client" type="result" id="%s" from="%s"/>`, e.ID, peerJID))
 		} else {
 			p.feed(fmt.Sprintf(`<iq xmlns="jabber:client" type="error" id="%s" from="%s"><error type="cancel"><not-acceptable xmlns="urn:ietf:params:xml:ns:xmpp-stanzas"/></error></iq>`, e.ID, peerJID))
 		}
 	case name == "iq" && c.XMLName.Local == "data":
 		p.packets = append(p.packets, pkt{c.Seq, c.SID, c.Data})
-		p.feed(fmt.Sprintf(`<iq xmlns="jabber:client" type="result" id="%s" from="%s"/>`, e.ID, peerJID))
+		if p.dataErr {
+			p.feed(fmt.Sprintf(`<iq xmlns="jabber:client" type="error" id="%s" from="%s"><error type="cancel"><item-not-found xmlns="urn:ietf:params:xml:ns:xmpp-stanzas"/></error></iq>`, e.ID, peerJID))
+		} else {
+			p.feed(fmt.Sprintf(`<iq xmlns="jabber:client" type="result" id="%s" from="%s"/>`, e.ID, peerJID))
+		}
 	case name == "message" && c.XMLName.Local == "data":
 		p.packets = append(p.packets, pkt{c.Seq, c.SID, c.Data})
 	case name == "iq" && c.XMLName.Local == "close":
 		p.closes++
-		p.feed(fmt.Sprintf(`<iq xmlns="jabber:client" type="result" id="%s" from="%s"/>`, e.ID, peerJID))
+		switch p.closeMode {
+		case "err":
+			p.feed(fmt.Sprintf(`<iq xmlns="jabber:client" type="error" id="%s" from="%s"><error type="cancel"><item-not-found xmlns="urn:ietf:params:xml:ns:xmpp-stanzas"/></error></iq>`, e.ID, peerJID))
+		case "silent":
+		default:
+			p.feed(fmt.Sprintf(`<iq xmlns="jabber:client" type="result" id="%s" from="%s"/>`, e.ID, peerJID))
+		}
 	}
 }
 
@@ -209,7 +223,8 @@ var replyCode = map[string]string{"ack": "ack", "item-not-found": "inf", "unexpe
 // ---------------------------------------------------------------- receiver
 
 type rop struct {
-	kind    byte // d c C r
+	kind    byte // d c C r w (w: the local side writes + flushes on the same connection)
+	data    []byte
 	known   bool
 	seq     int
 	payload string
@@ -264,6 +279,8 @@ func runRecv(r *common.Run, maxbuf int, carrier string, ops []rop, class string)
 	var accepted, got []byte
 	expSeq, unread, closed, nd := 0, 0, false, 0
 	lastBad := "none"
+	var packOps []string // the local writer's view of the history (other direction)
+	wrote := false
 	for _, o := range ops {
 		if len(obs) > 0 && strings.HasPrefix(obs[len(obs)-1], "PROBLEM") {
 			break
@@ -324,7 +341,39 @@ func runRecv(r *common.Run, maxbuf int, carrier string, ops []rop, class string)
 				unread += len(dec)
 				expSeq = (expSeq + 1) % 65536
 			}
+		case 'w':
+			done := make(chan error, 1)
+			go func() {
+				_, err := conn.Write(o.data)
+				if err == nil {
+					err = conn.Flush()
+				}
+				done <- err
+			}()
+			var werr error
+			if !p.pump(func() bool {
+				select {
+				case werr = <-done:
+					return true
+				default:
+					return false
+				}
+			}) {
+				fail("local Write does not return")
+				continue
+			}
+			if closed {
+				if werr == nil && len(o.data) > 0 {
+					r.Fail("close", "write-after-close-accepted", line(), "Write on a closed stream returned nil")
+				}
+			} else if werr != nil {
+				fail("local Write failed: " + werr.Error())
+				continue
+			}
+			wrote = true
+			packOps = append(packOps, "w:"+common.Hex(o.data), "f")
 		case 'c', 'C':
+			packOps = append(packOps, "C")
 			toks = append(toks, "c")
 			if o.kind == 'c' {
 				p.feed(fmt.Sprintf(`<iq xmlns="jabber:client" type="set" id="c1" from="%s" to="me@example.net/h"><close xmlns="http://jabber.org/protocol/ibb" sid="S"/></iq>`, peerJID))
@@ -391,6 +440,39 @@ func runRecv(r *common.Run, maxbuf int, carrier string, ops []rop, class string)
 	}
 	l := fmt.Sprintf("recv %d %s", maxbuf, common.Join(toks, ","))
 	r.Line(l, common.Join(obs, ","))
+	if wrote && !(len(obs) > 0 && strings.HasPrefix(obs[len(obs)-1], "PROBLEM")) {
+		// both directions on one connection: the stanzas the local writer produced must be
+		// what the packetiser predicts from the writes alone, and the line above (which does
+		// not mention the writes) must still be answered as observed
+		p.sync()
+		var pk []string
+		for _, q := range p.packets {
+			n, _ := strconv.Atoi(q.seq)
+			pk = append(pk, fmt.Sprintf("%d:%s:%s", n, common.B(q.sid == "S"), common.HexS(q.payload)))
+		}
+		r.Line(fmt.Sprintf("pack 4 %s", common.Join(packOps, ",")), common.Join(pk, ","))
+		// independent oracle for the local writer: once the stream is closed (by either side)
+		// everything Write accepted before the close must have gone out
+		if closed {
+			var dec, wr []byte
+			for _, q := range p.packets {
+				d, _ := base64.StdEncoding.DecodeString(q.payload)
+				dec = append(dec, d...)
+			}
+			for _, t := range packOps {
+				if t == "C" {
+					break
+				}
+				if strings.HasPrefix(t, "w:") {
+					b, _ := common.UnHex(t[2:])
+					wr = append(wr, b...)
+				}
+			}
+			if !bytes.Equal(dec, wr) {
+				r.Fail("deliver", "written-bytes-lost-at-close", line(), fmt.Sprintf("the local side wrote %x before the close, the data stanzas carry %x", wr, dec))
+			}
+		}
+	}
 	if os.Getenv("VERIF_DEBUG") != "" {
 		fmt.Fprintln(os.Stderr, l, "=>", common.Join(obs, ","))
 	}
@@ -450,7 +532,23 @@ func runSend(r *common.Run, accept bool, acked bool, blockSize uint16, ops []sop
 		}
 		r.Fail("open-iff-accepted", key, []string{r.Prop + " open " + common.B(accept)}, fmt.Sprintf("peer accepted=%v, OpenIQ returned conn=%v err=%v", accept, o.c != nil, o.err))
 	}
-	if o.c == nil || !accept {
+	if !accept {
+		// after a refused open the sid must be unknown: data and close for it are refused
+		for _, probe := range []struct{ id, xml string }{
+			{"late1", `<data xmlns="http://jabber.org/protocol/ibb" seq="0" sid="T">QUJD</data>`},
+			{"late2", `<close xmlns="http://jabber.org/protocol/ibb" sid="T"/>`},
+		} {
+			p.feed(fmt.Sprintf(`<iq xmlns="jabber:client" type="set" id="%s" from="%s" to="me@example.net/h">%s</iq>`, probe.id, peerJID, probe.xml))
+			p.pump(func() bool { return p.replies[probe.id] != "" })
+			code := replyCode[p.replies[probe.id]]
+			r.Line("recv 0 d:0:0:"+common.HexS("QUJD"), code) // the model: a packet for an unknown sid
+			if code != "inf" {
+				r.Fail("open-iff-accepted", "sid-registered-after-refused-open", []string{r.Prop + " open 0", "#then " + probe.id + " for that sid"}, "after OpenIQ returned an error the peer's "+probe.id+" for that sid was answered "+p.replies[probe.id]+" instead of item-not-found")
+			}
+		}
+		return
+	}
+	if o.c == nil {
 		return
 	}
 	conn := o.c
@@ -518,6 +616,25 @@ func runSend(r *common.Run, accept bool, acked bool, blockSize uint16, ops []sop
 	}
 	r.Line(line, o2)
 	r.Case(line, len(written) > 0, class)
+	if res == "" && len(ops) < 5000 {
+		// the exact packetisation predicted by the Lean packetiser (bufio + base64 stream encoder)
+		bsz := int(blockSize)
+		if bsz == 0 {
+			bsz = ibb.BlockSize
+		}
+		var ot []string
+		for _, op := range ops {
+			switch op.kind {
+			case 'w':
+				ot = append(ot, "w:"+common.Hex(op.data))
+			case 'f':
+				ot = append(ot, "f")
+			case 'C':
+				ot = append(ot, "C")
+			}
+		}
+		r.Line(fmt.Sprintf("pack %d %s", bsz, common.Join(ot, ",")), common.Join(pk, ","))
+	}
 	switch {
 	case !seqOK:
 		r.Fail("seq", "packets-not-numbered-consecutively-from-zero", lines, "sequence numbers / sid of the data stanzas")
@@ -675,4 +792,323 @@ func runStale(r *common.Run) {
 	default:
 		r.Line("reader P3,R,R,W,K,P3,W,K", fmt.Sprintf("delivered=%d eof=0 reading=0", len(first)+(len(obs)-strings.LastIndex(obs, ",D")-2)/2))
 	}
+}
+
+// runCloseFail: Close fails at one of its steps (or not at all); whatever it
+// returns, a Read that was pending or is issued afterwards must return and a
+// later data packet must be refused.
+func runCloseFail(r *common.Run, fault string, pending bool) {
+	p, err := newPeer()
+	if err != nil {
+		return
+	}
+	defer p.stop()
+	ln := p.h.Listen(p.rs.S)
+	acc := make(chan net.Conn, 1)
+	go func() { c, _ := ln.Accept(); acc <- c }()
+	p.feed(fmt.Sprintf(`<iq xmlns="jabber:client" type="set" id="o1" from="%s" to="me@example.net/h"><open xmlns="http://jabber.org/protocol/ibb" sid="S" block-size="4" stanza="iq"/></iq>`, peerJID))
+	var nc net.Conn
+	select {
+	case nc = <-acc:
+	case <-time.After(watchdog):
+		return
+	}
+	conn := nc.(*ibb.Conn)
+	p.pump(func() bool { return p.replies["o1"] != "" })
+	type res struct {
+		n   int
+		err error
+	}
+	rch := make(chan res, 1)
+	read := func() {
+		go func() {
+			b := make([]byte, 8)
+			k, err := conn.Read(b)
+			rch <- res{k, err}
+		}()
+	}
+	if pending {
+		read()
+		time.Sleep(2 * time.Millisecond) // let it reach its wait
+	}
+	switch fault {
+	case "flush":
+		p.dataErr = true
+		if _, err := conn.Write([]byte("abc")); err != nil {
+			r.Notes = append(r.Notes, "close-fail setup: Write failed")
+			return
+		}
+	case "send":
+		p.rs.Out.Fail = fmt.Errorf("verif: connection broken")
+	case "reply":
+		p.closeMode = "err"
+	case "deadline":
+		p.closeMode = "silent"
+		conn.SetWriteDeadline(time.Now().Add(150 * time.Millisecond))
+	}
+	done := make(chan error, 1)
+	go func() { done <- conn.Close() }()
+	var cerr error
+	line := "close " + fault
+	lines := []string{r.Prop + " " + line, fmt.Sprintf("#a Read was pending before Close: %v", pending)}
+	if !p.pump(func() bool {
+		select {
+		case cerr = <-done:
+			return true
+		default:
+			return false
+		}
+	}) {
+		r.Line(line, "ret=STALL")
+		r.Fail("close", "close-does-not-return:"+fault, lines, "Close did not return")
+		return
+	}
+	p.rs.Out.Fail = nil
+	ret := "ok"
+	if cerr != nil {
+		ret = "err"
+	}
+	if !pending {
+		read()
+	}
+	rd := "BLOCK"
+	select {
+	case x := <-rch:
+		rd = "EOF"
+		if x.n > 0 {
+			rd = "DATA"
+		}
+	case <-time.After(watchdog):
+		r.Fail("close", "read-blocks-after-close:"+fault, lines, fmt.Sprintf("Close returned %v; Read (pending before Close: %v) still blocks: the receiving side was not taken down", cerr, pending))
+	}
+	data := "skip"
+	if fault != "send" {
+		p.dataErr = false
+		p.feed(fmt.Sprintf(`<iq xmlns="jabber:client" type="set" id="late" from="%s"><data xmlns="http://jabber.org/protocol/ibb" seq="0" sid="S"></data></iq>`, peerJID))
+		p.pump(func() bool { return p.replies["late"] != "" })
+		data = replyCode[p.replies["late"]]
+		if data == "" {
+			data = "other:" + p.replies["late"]
+		}
+		if data != "inf" {
+			r.Fail("refuse", "data-accepted-after-close:"+fault, lines, "a data packet for the closed stream was answered "+data)
+		}
+	}
+	r.Line(line, fmt.Sprintf("ret=%s read=%s data=%s", ret, rd, data))
+	r.Case(line+fmt.Sprint(pending), true, "close-fail")
+}
+
+// runOpenFail: OpenIQ fails on each of its paths (error reply is covered by
+// runSend): the request cannot be sent, or is never answered before the
+// context ends.  Afterwards the sid must be unknown.
+func runOpenFail(r *common.Run, how string) {
+	p, err := newPeer()
+	if err != nil {
+		return
+	}
+	defer p.stop()
+	p.openSilent = true
+	ctx, cancel := context.WithTimeout(context.Background(), 60*time.Millisecond)
+	defer cancel()
+	if how == "send" {
+		p.rs.Out.Fail = fmt.Errorf("verif: connection broken")
+	}
+	done := make(chan error, 1)
+	go func() {
+		c, err := p.h.OpenIQ(ctx, stanza.IQ{To: jid.MustParse(peerJID)}, p.rs.S, true, 0, "T")
+		if err == nil && c == nil {
+			err = fmt.Errorf("nil conn")
+		}
+		done <- err
+	}()
+	var oerr error
+	lines := []string{r.Prop + " open 0", "#open fails: " + how}
+	if !p.pump(func() bool {
+		select {
+		case oerr = <-done:
+			return true
+		default:
+			return false
+		}
+	}) {
+		r.Fail("open-iff-accepted", "open-does-not-return:"+how, lines, "OpenIQ did not return")
+		return
+	}
+	p.rs.Out.Fail = nil
+	obs := "err"
+	if oerr == nil {
+		obs = "conn"
+		r.Fail("open-iff-accepted", "conn-returned-although-open-failed:"+how, lines, "OpenIQ returned a connection although the request was never accepted")
+	}
+	r.Line("open 0", obs)
+	if how != "send" {
+		p.feed(fmt.Sprintf(`<iq xmlns="jabber:client" type="set" id="late1" from="%s" to="me@example.net/h"><data xmlns="http://jabber.org/protocol/ibb" seq="0" sid="T">QUJD</data></iq>`, peerJID))
+		p.pump(func() bool { return p.replies["late1"] != "" })
+		code := replyCode[p.replies["late1"]]
+		r.Line("recv 0 d:0:0:"+common.HexS("QUJD"), code)
+		if code != "inf" {
+			r.Fail("open-iff-accepted", "sid-registered-after-failed-open:"+how, lines, "data for the sid of a failed open was answered "+p.replies["late1"])
+		}
+	}
+	r.Case("open-fail "+how, true, "open-fail")
+}
+
+// runTail: the writer ends on a length that is not a multiple of three, with or
+// without a Flush, and then either side closes: everything written must be on
+// the wire when the close has been processed.  opener: we opened the stream
+// (the peer closes with an IQ to us) or we accepted it.
+func runTail(r *common.Run, opener bool, carrier string, n int, flush, peerCloses bool) {
+	p, err := newPeer()
+	if err != nil {
+		return
+	}
+	defer p.stop()
+	var conn *ibb.Conn
+	sid := "S"
+	if opener {
+		sid = "T"
+		och := make(chan *ibb.Conn, 1)
+		go func() {
+			c, _ := p.h.OpenIQ(context.Background(), stanza.IQ{To: jid.MustParse(peerJID)}, p.rs.S, carrier == "iq", 4, "T")
+			och <- c
+		}()
+		p.pump(func() bool {
+			select {
+			case conn = <-och:
+				return true
+			default:
+				return false
+			}
+		})
+	} else {
+		ln := p.h.Listen(p.rs.S)
+		acc := make(chan net.Conn, 1)
+		go func() { c, _ := ln.Accept(); acc <- c }()
+		p.feed(fmt.Sprintf(`<iq xmlns="jabber:client" type="set" id="o1" from="%s" to="me@example.net/h"><open xmlns="http://jabber.org/protocol/ibb" sid="S" block-size="4" stanza="%s"/></iq>`, peerJID, carrier))
+		select {
+		case c := <-acc:
+			conn, _ = c.(*ibb.Conn)
+		case <-time.After(watchdog):
+		}
+		p.pump(func() bool { return p.replies["o1"] != "" })
+	}
+	if conn == nil {
+		r.Notes = append(r.Notes, "tail scenario: no connection")
+		return
+	}
+	data := make([]byte, n)
+	for i := range data {
+		data[i] = byte('a' + i)
+	}
+	ops := []string{"w:" + common.Hex(data)}
+	step := func(f func() error) error {
+		done := make(chan error, 1)
+		go func() { done <- f() }()
+		var e error
+		p.pump(func() bool {
+			select {
+			case e = <-done:
+				return true
+			default:
+				return false
+			}
+		})
+		return e
+	}
+	step(func() error { _, err := conn.Write(data); return err })
+	if flush {
+		step(conn.Flush)
+		ops = append(ops, "f")
+	}
+	ops = append(ops, "C")
+	if peerCloses {
+		p.feed(fmt.Sprintf(`<iq xmlns="jabber:client" type="set" id="pc" from="%s" to="me@example.net/h"><close xmlns="http://jabber.org/protocol/ibb" sid="%s"/></iq>`, peerJID, sid))
+		p.pump(func() bool { return p.replies["pc"] != "" })
+	} else {
+		step(conn.Close)
+	}
+	p.sync()
+	var pk []string
+	var dec []byte
+	for _, q := range p.packets {
+		k, _ := strconv.Atoi(q.seq)
+		pk = append(pk, fmt.Sprintf("%d:%s:%s", k, common.B(q.sid == sid), common.HexS(q.payload)))
+		d, _ := base64.StdEncoding.DecodeString(q.payload)
+		dec = append(dec, d...)
+	}
+	line := fmt.Sprintf("pack 4 %s", common.Join(ops, ","))
+	r.Line(line, common.Join(pk, ","))
+	r.Case(fmt.Sprintf("tail %v %s %d %v %v", opener, carrier, n, flush, peerCloses), true, "tail")
+	if !bytes.Equal(dec, data) {
+		who := "local Close"
+		if peerCloses {
+			who = "the peer's close"
+		}
+		r.Fail("deliver", fmt.Sprintf("tail-lost-at-close:peer=%v:flush=%v", peerCloses, flush), []string{r.Prop + " " + line, fmt.Sprintf("#opener=%v carrier=%s closed by %s", opener, carrier, who)},
+			fmt.Sprintf("wrote %d bytes, %s processed, the data stanzas carry %d bytes", n, who, len(dec)))
+	}
+}
+
+// runWrapQuick: the receiver's counter around 65535 -> 0 in the quick tier: 65534 empty
+// packets (message carrier, no barrier in between), then packets with content across the wrap.
+func runWrapQuick(r *common.Run) {
+	p, err := newPeer()
+	if err != nil {
+		return
+	}
+	defer p.stop()
+	ln := p.h.Listen(p.rs.S)
+	acc := make(chan net.Conn, 1)
+	go func() { c, _ := ln.Accept(); acc <- c }()
+	p.feed(fmt.Sprintf(`<iq xmlns="jabber:client" type="set" id="o1" from="%s" to="me@example.net/h"><open xmlns="http://jabber.org/protocol/ibb" sid="S" block-size="4" stanza="message"/></iq>`, peerJID))
+	var conn net.Conn
+	select {
+	case conn = <-acc:
+	case <-time.After(watchdog):
+		return
+	}
+	p.pump(func() bool { return p.replies["o1"] != "" })
+	const start = 65534
+	var sb strings.Builder
+	for i := 0; i < start; i++ {
+		fmt.Fprintf(&sb, `<message xmlns="jabber:client" from="%s"><data xmlns="http://jabber.org/protocol/ibb" seq="%d" sid="S"></data></message>`, peerJID, i)
+		if i%2048 == 2047 {
+			p.feed(sb.String())
+			sb.Reset()
+		}
+	}
+	p.feed(sb.String())
+	delete(p.replies, "msgerr")
+	if !p.sync() {
+		r.Notes = append(r.Notes, "quick wrap: prefix not processed")
+		return
+	}
+	if e, ok := p.replies["msgerr"]; ok {
+		r.Fail("seq", "prefix-packet-refused", []string{r.Prop + " recvfrom 0 0 -"}, "one of the first 65534 consecutively numbered empty packets was refused: "+e)
+		return
+	}
+	var toks, obs []string
+	var want []byte
+	for i, seq := range []int{65534, 65535, 0, 1, 2} {
+		chunk := []byte{byte('A' + i)}
+		pl := base64.StdEncoding.EncodeToString(chunk)
+		id := fmt.Sprintf("w%d", i)
+		p.feed(fmt.Sprintf(`<iq xmlns="jabber:client" type="set" id="%s" from="%s"><data xmlns="http://jabber.org/protocol/ibb" seq="%d" sid="S">%s</data></iq>`, id, peerJID, seq, pl))
+		p.pump(func() bool { return p.replies[id] != "" })
+		code := replyCode[p.replies[id]]
+		toks = append(toks, fmt.Sprintf("d:1:%d:%s", seq, common.HexS(pl)))
+		obs = append(obs, code)
+		if code == "ack" {
+			want = append(want, chunk...)
+		} else {
+			r.Fail("seq", "wrap-around-packet-refused", []string{fmt.Sprintf("%s recvfrom %d 0 %s", r.Prop, start, common.Join(toks, ","))}, fmt.Sprintf("packet number %d after %d accepted packets was answered %s", seq, start+i, p.replies[id]))
+		}
+	}
+	b := make([]byte, 16)
+	k, _ := conn.Read(b)
+	toks = append(toks, "r:16")
+	obs = append(obs, "D"+common.Hex(b[:k]))
+	r.Line(fmt.Sprintf("recvfrom %d 0 %s", start, common.Join(toks, ",")), common.Join(obs, ","))
+	r.Case("wrap-quick", true, "wrap")
+	_ = want
 }
